@@ -60,10 +60,16 @@ def run(ctx, prop=PROP):
     g = gen_interp.Gen(ctx.rng)
     ctx.extra['rule'] = ('well-typed programs grown type-directedly over the modelled core (see harness/gen_interp.py); '
                          'non-trivial = at least 6 instructions and at least one control instruction (IF*/LOOP*/ITER/MAP/DIP/EXEC)')
+    if prop == 'C02':
+        ctx.extra['rule'] += ('; plus a systematic stream: MAP (6 bodies that keep / swap / replace / rebuild the element) over pushed maps of '
+                              f'{len(KEY_TYPES)} key types (simple, pair, nested pair, option, or) x {len(ELT_TYPES)} element types, and over lists; '
+                              'these count as non-trivial as well (they contain MAP)')
     ctx.assumptions += ['the Lean mirror omits pytezos\' dynamic type assertions: programs are well-typed by construction',
                         'FAILWITH values are observable only through repr() in pytezos; compared as repr strings',
                         'instructions outside the modelled core (see Instr in Interp/Syntax.lean) are not covered']
     progs = []
+    if prop == 'C02':
+        progs += collection_programs(g, ctx.rng, 1 if ctx.tier == 'quick' else 8)
     for i in range(n_prog):
         code, st = g.program(ctx.rng.choice([3, 5, 8, 12, 16]))
         progs.append((code, st, gen_env(ctx.rng)))
@@ -80,9 +86,11 @@ def run(ctx, prop=PROP):
         text = json.dumps(code)
         control = any(k in text for k in ('"IF', '"LOOP', '"ITER', '"MAP', '"DIP', '"EXEC'))
         size = gen_interp.code_size(code)
-        ctx.case({'code': code if size < 10 else f'<{size} instrs>', 'env': env}, nontrivial=size >= 6 and control)
+        ctx.case({'code': code if size < 10 else f'<{size} instrs>', 'env': env}, nontrivial=control and (size >= 6 or (prop == 'C02' and ('"MAP"' in text or '"ITER"' in text))))
         real = interp_run.run_real(code, env)
         ctx.count('outcome', real[0])
+        for kt in map_key_kinds(code):
+            ctx.count('map-key-type', kt)
         ctx.count('size', min(size // 5 * 5, 60))
         if model is None:
             impl_m = spec_m = specg_m = None
@@ -100,6 +108,16 @@ def run(ctx, prop=PROP):
                 want_repr = interp_run.py_repr(*impl_m[1])
                 if want_repr is not None and want_repr != real[1]:
                     ctx.mismatch('failwith-value', {'code': code, 'env': env}, real[1], want_repr)
+            # ---- C02's property verbatim: runtime type of every final slot = the type the typing rules assign
+            if prop == 'C02' and real[0] == 'ok' and tline.startswith('ok'):
+                static = [mich.from_line(x) for x in tline.split(' | ')[1:]]
+                got = [t for t, _ in real[1]]
+                ctx.count('static-type-oracle', 'checked')
+                if got != static:
+                    key = ('MAP-over-empty-collection-with-type-changing-body' if specg_m[0] == 'err'
+                           else 'type-differs:' + mich.to_line(code)[:120])
+                    ctx.violation(key, f'runtime types {got} but the typing rules assign {static}',
+                                  {'code': code, 'env': env, 'runtime_types': got, 'static_types': static})
         # ---- property oracle: an independent reference.  With the Lean side available it is Spec.eval; the
         # implementation must compute what the reference prescribes whenever the reference is defined.
         if spec_m is not None and spec_m[0] != 'err':
@@ -122,6 +140,67 @@ def run(ctx, prop=PROP):
                     ctx.violation('type-differs:' + mich.to_line(code)[:120], f'runtime types {got} expected {want}', {'code': code, 'env': env})
             if real[0] == 'err' and prop == 'C01' and 'overflow' not in str(real[1]) and 'natural' not in str(real[1]):
                 ctx.violation('wellTyped-program-errors:' + mich.to_line(code)[:120], f'well-typed program fails with {real[1]}', {'code': code, 'env': env})
+
+
+def map_key_kinds(code):
+    """outermost prim of the key type of every `map k v` type expression in the code"""
+    out = []
+
+    def walk(x):
+        if isinstance(x, list):
+            for y in x:
+                walk(y)
+        elif isinstance(x, dict):
+            if x.get('prim') in ('map', 'EMPTY_MAP') and len(x.get('args', [])) == 2:
+                out.append(x['args'][0]['prim'])
+            for y in x.get('args', []):
+                walk(y)
+    walk(code)
+    return out
+
+
+KEY_TYPES = [('int',), ('string',), ('pair', ('int',), ('int',)), ('pair', ('string',), ('nat',)), ('pair', ('pair', ('int',), ('bytes',)), ('nat',)),
+             ('pair', ('int',), ('pair', ('nat',), ('string',))), ('option', ('int',)), ('or', ('nat',), ('string',)),
+             ('pair', ('option', ('nat',)), ('or', ('int',), ('bytes',)))]
+ELT_TYPES = [('int',), ('string',), ('pair', ('int',), ('nat',)), ('option', ('nat',)), ('list', ('int',)), ('or', ('unit',), ('bytes',))]
+
+
+def collection_programs(g, rng, reps):
+    """the mechanism the property is anchored in: MAP / ITER over maps and lists of every key and element shape
+    (composite keys included), with bodies that keep, swap, replace or rebuild the element"""
+    P = lambda prim, *args: {'prim': prim, 'args': list(args)} if args else {'prim': prim}
+    progs = []
+    for _ in range(reps):
+        for kt in KEY_TYPES:
+            for vt in ELT_TYPES:
+                mt = ('map', kt, vt)
+                bodies = [
+                    ([P('CDR')], vt),
+                    ([P('CAR')], kt),
+                    ([P('DUP'), P('CDR'), P('SWAP'), P('CAR'), P('PAIR')], ('pair', kt, vt)),
+                    ([P('UNPAIR'), P('SOME'), P('PAIR')], ('pair', ('option', kt), vt)),
+                    ([P('DROP'), g.push(('nat',))], ('nat',)),
+                    ([P('CDR'), P('LEFT', gen_interp.ty_mich(kt))], ('or', vt, kt)),
+                ]
+                for body, out in bodies:
+                    val = g.gen_value(mt)
+                    while not val and rng.random() < 0.9:
+                        val = g.gen_value(mt)
+                    code = [P('PUSH', gen_interp.ty_mich(mt), val), P('MAP', body)]
+                    st = [('map', kt, out)]
+                    if rng.random() < 0.3:      # the result must still be usable as a map of the new type
+                        code += [P('DUP'), P('SIZE'), P('SWAP'), P('ITER', [P('DROP')])]
+                        st = [('nat',)]
+                    elif rng.random() < 0.3:
+                        code += [P('EMPTY_MAP', gen_interp.ty_mich(kt), gen_interp.ty_mich(out)), P('PAIR')]
+                        st = [('pair', ('map', kt, out), ('map', kt, out))]
+                    progs.append((code, st, gen_env(rng)))
+        for vt in ELT_TYPES + KEY_TYPES[2:]:
+            lt = ('list', vt)
+            for body, out in [([P('SOME')], ('option', vt)), ([P('DUP'), P('PAIR')], ('pair', vt, vt)), ([P('DROP'), P('UNIT')], ('unit',)), ([], vt)]:
+                val = g.gen_value(lt)
+                progs.append(([P('PUSH', gen_interp.ty_mich(lt), val), P('MAP', body)], [('list', out)], gen_env(rng)))
+    return progs
 
 
 def drop_fw(r):
